@@ -1581,6 +1581,14 @@ def __analyse_class(
 
     try:
         methods_with_names = inspect.getmembers(type_info.raw_type, __is_function_or_method)
+        # inspect.getmembers relies on dir(), which for some classes, e.g., enums, does
+        # not list the methods. Thus, also look into the namespace of the class itself.
+        seen_names = {name for name, _ in methods_with_names}
+        methods_with_names.extend(
+            (name, member)
+            for name in sorted(vars(type_info.raw_type).keys() - seen_names)
+            if __is_function_or_method(member := getattr(type_info.raw_type, name, None))
+        )
     except Exception as ex:  # noqa: BLE001
         LOGGER.error("Could not get members for class %s: %s", type_info.full_name, str(ex))
         return
